@@ -38,6 +38,27 @@ def rich_ops():
     ]
 
 
+def edit_ops():
+    """Every route that changes the attached-prefix map, with queries (OBS) in between, on
+    states that already hold pages and links."""
+    return al.prefix_edit_ops() + [al.OBS, al.page(Axy + b"p:k|", True), al.links((Ax, Az), (Az, Axy)), al.rule(A, "path1"), al.unrule(A)]
+
+
+def lifecycle_ops():
+    """Two different corpora (so that after a clear other LRUs land on the same blocks),
+    queries in between, clear and reopen."""
+    return [
+        al.links((Ax, Ab), (Ab, Ax), (Ax, Ax)),
+        al.crawl((Bb, (Az, Axy)), (Az, (Bb,))),
+        al.page(Awx, True),
+        al.create(Ax),
+        al.rmprefix(Ax),
+        al.OBS,
+        al.clear("subdomain", {}),
+        al.REOPEN,
+    ]
+
+
 def rich_spaces(tier, depth_quick=3, depth_thorough=4, extra_ops=(), roots=None):
     thorough = tier == "thorough"
     ops = rich_ops() + list(extra_ops)
@@ -45,6 +66,8 @@ def rich_spaces(tier, depth_quick=3, depth_thorough=4, extra_ops=(), roots=None)
     return [
         Space(Cfg("domain"), ops, d, roots=roots or [al.R0, al.R2, al.R4], name="rich/domain"),
         Space(Cfg("never"), ops, d, roots=[al.R0], name="rich/never"),
+        Space(Cfg("domain"), edit_ops(), 4 if thorough else 3, roots=[al.R2, al.R4], name="edits/domain"),
+        Space(Cfg("domain"), lifecycle_ops(), 5 if thorough else 4, roots=[al.R0], name="lifecycle/domain", dedup=False),
     ]
 
 
